@@ -15,6 +15,8 @@ pub mod c19;
 pub mod enc;
 pub mod gad;
 pub mod sch;
+pub mod sp;
+pub mod c12w;
 
 use pzv_common::driver::{Ctx, install_panic_hook, read_replay};
 
@@ -36,6 +38,7 @@ fn main() {
             "C05" => c05::replay(&ctx, &sub, &case),
             "C06" => c06::replay(&ctx, &sub, &case),
             "C19" => c19::replay(&ctx, &sub, &case),
+            "C12" if sub.starts_with("core_wrapped") => c12w::replay(&ctx, &sub, &case),
             "C12" if sub.starts_with("core_keygen") => c12k::replay(&ctx, &sub, &case),
             "C10" | "C11" | "C12" => c12s::replay(&ctx, &sub, &case),
             "C17" => c17s::replay(&ctx, &sub, &case),
@@ -92,7 +95,8 @@ fn main() {
         "C12" => {
             c12s::run_all(&ctx);
             c12k::run_all(&ctx);
-            ctx.finish(&format!("{} || {}", c12s::RULE, c12k::RULE), &["scheme-level part of C12/C11 (the HAL-level part is served by pzv-hal); keys are produced with roomy scratch, only the call under audit gets the exact window"], &[("dsize>2", 100), ("cross_radix", 500)])
+            c12w::run_all(&ctx);
+            ctx.finish(&format!("{} || {} || {}", c12s::RULE, c12k::RULE, c12w::RULE), &["scheme-level part of C12/C11 (the HAL-level part is served by pzv-hal); keys are produced with roomy scratch, only the call under audit gets the exact window"], &[("dsize>2", 100), ("cross_radix", 500)])
         }
         "C19" => {
             c19::run_all(&ctx);
